@@ -317,6 +317,7 @@ type rtspCase struct {
 	Method int    `json:"method"` // 0 Basic, 1 Digest
 	Cred   string `json:"cred"`
 	Pass   string `json:"pass"`
+	Query  string `json:"query"` // appended to the request URL ("" = none)
 }
 
 func digestHeader(user, pass, realm, nonce, method, uri string) string {
@@ -345,7 +346,7 @@ func runRtspAuth(r *vk.Run, c rtspCase) {
 	w := world.New(world.Conf{"rtsp.enable": true, "rtsp.auth_enable": true, "rtsp.auth_method": c.Method, "rtsp.username": user, "rtsp.password": c.Pass})
 	defer w.Close()
 	fail := func(key, f string, a ...interface{}) {
-		r.Violation("rtsp-auth/"+key, fmt.Sprintf("method=%s password=%q credentials=%s: %s", []string{"Basic", "Digest"}[c.Method], c.Pass, c.Cred, fmt.Sprintf(f, a...)), c)
+		r.Violation("rtsp-auth/"+key, fmt.Sprintf("method=%s password=%q credentials=%s query=%q: %s", []string{"Basic", "Digest"}[c.Method], c.Pass, c.Cred, c.Query, fmt.Sprintf(f, a...)), c)
 	}
 	pub, err := w.RtmpPublisher("live", "s")
 	if err != nil || !pub.Accepted() {
@@ -360,7 +361,7 @@ func runRtspAuth(r *vk.Run, c rtspCase) {
 		fail("infra", "%v", err)
 		return
 	}
-	uri := "rtsp://h/live/s"
+	uri := "rtsp://h/live/s" + c.Query
 	describe := func(auth string) (status int, sdp bool, wwwAuth string, closed bool) {
 		p := w.NewRtspPeer(uri)
 		h := map[string]string{"Accept": "application/sdp"}
@@ -639,7 +640,11 @@ func main() {
 	for m := 0; m <= 1; m++ {
 		for _, pass := range []string{"p4ss", "pa:ss", ""} {
 			for _, cr := range []string{"right", "wrong-password", "wrong-user", "other-method", "garbled", "garbled-basic", "empty-scheme", "digest-wrong-uri-in-response"} {
-				rcs = append(rcs, rtspCase{m, cr, pass})
+				// the request URL with and without a query string (simple-auth's secret travels there; '=',
+				// '&' and ',' then appear inside the quoted uri of a Digest header)
+				for _, q := range []string{"", "?lal_secret=0123456789abcdef0123456789abcdef", "?a=1&b=2", "?x=1,2"} {
+					rcs = append(rcs, rtspCase{m, cr, pass, q})
+				}
 			}
 		}
 	}
